@@ -100,6 +100,14 @@ def cached_tlc(env, kind, mcmod, cfgfile, tag, **kw):
         with open(tmp, "w") as f:
             json.dump(res, f)
         os.replace(tmp, cpath)
+        # entries of older versions of the specification are dead weight
+        prefix = "%s_%s_" % (kind, os.path.basename(cfgfile).replace(".cfg", ""))
+        for f in os.listdir(cdir):
+            if f.startswith(prefix) and f.endswith(".json") and os.path.join(cdir, f) != cpath:
+                try:
+                    os.remove(os.path.join(cdir, f))
+                except OSError:
+                    pass
     return res, False
 
 
